@@ -544,7 +544,11 @@ fn param(p: &mut Parser) {
 }
 fn params_desc(p: &mut Parser) -> CompletedMarker {
 	let m = p.start();
-	p.bump_assert(T!['(']);
+	if !p.at(T!['(']) {
+		p.error_with_recovery_set(TS![]);
+		return m.complete(p, PARAMS_DESC);
+	}
+	p.bump();
 
 	loop {
 		if p.at(T![')']) {
